@@ -22,6 +22,7 @@ import Rpki.Proofs.CmsEncLemmas
 import Rpki.Proofs.IdEncLemmas
 import Rpki.Proofs.SigMsgEncLemmas
 import Rpki.Proofs.CsrEncLemmas
+import Rpki.Proofs.RtaEncLemmas
 namespace Rpki.Props.C05
 set_option autoImplicit false
 open Rpki.Der
@@ -407,5 +408,36 @@ theorem cert_decode_encode_decode (d : CertDer.Decoded) (h : CertEnc.WF d) (hi :
   unfold CertDer.decodeCert
   rw [this]
   rfl
+
+/-! ### resource tagged attestations -/
+
+/-- **`ResourceTaggedAttestation::take_from` reads back what `ResourceTaggedAttestation::encode_ref` writes**: the
+subject keys in the order given, the IPv4, IPv6 and AS resources (any canonical sets, at least one non-empty; an
+empty address family beside a non-empty one is written as an empty list and read back as empty), the digest. -/
+theorem rta_attestation_roundtrip (a : RtaDer.Attestation) (h : RtaEnc.WF a) (rest : Bytes) :
+    RtaDer.decodeAttestation (RtaEnc.encodeAttestation a ++ rest) = some a :=
+  RtaEnc.decodeAttestation_encodeAttestation a h rest
+
+example : RtaEnc.WF { keys := [List.replicate 20 7], v4 := [], v6 := [⟨0, 2 ^ 128 - 1⟩], asn := [⟨64496, 64496⟩], digest := [1, 2] } where
+  keys := by intro k hk; simp at hk; subst hk; simp
+  v4 := ⟨by simp [Chain.Canon], by intro b hb; cases hb⟩
+  v6 := ⟨by intro b hb; simp at hb; subst hb; decide, by simp⟩
+  asn := ⟨by intro b hb; simp at hb; subst hb; decide, by simp⟩
+  some := Or.inl (by simp)
+
+/-- **`Rta::decode` reads back what `Rta::to_captured` writes**: the attestation, every certificate and CRL (given by
+the content of their SEQUENCEs together with what their readers return — `cert_roundtrip`, `crl_roundtrip` supply
+these for written ones), every signer info whose attributes parse with the attestation's content type; the CRL set
+is left out when empty. -/
+theorem rta_object_roundtrip (content : Bytes) (att : RtaDer.Attestation) (hatt : RtaDer.decodeAttestation content = some att)
+    (certCs : List Bytes) (certs : List CertDer.Decoded) (hcerts : certCs.map CertDer.certBody = certs.map some)
+    (crlCs : List Bytes) (crls : List CrlDer.CrlD) (hcrls : crlCs.map CrlDer.crlInner = crls.map some)
+    (signers : List RtaDer.Signer)
+    (hs : ∀ s ∈ signers, s.sid.length = 20 ∧
+      SigObj.parseAttrs true s.attrs = some (Consts.oidCtRta, s.messageDigest, s.signingTime))
+    (rest : Bytes) :
+    RtaDer.decodeRta (RtaEnc.encodeRta content (certCs.map (tlv tagSeq)) (crlCs.map (tlv tagSeq)) signers ++ rest) =
+      some { content := content, att := att, certs := certs, crls := crls, signers := signers } :=
+  RtaEnc.decodeRta_encodeRta content att hatt certCs certs hcerts crlCs crls hcrls signers hs rest
 
 end Rpki.Props.C05
